@@ -515,7 +515,7 @@ func runVector(in *input) map[string]any {
 	w := newWorld()
 	out := emptyOut()
 	switch in.Fam {
-	case "val1", "val2", "valx":
+	case "val1", "val2", "valx", "valr":
 		w.putAllow(in)
 		w.validate(in, out)
 	case "fam", "prov":
